@@ -431,5 +431,5 @@ func c05Run(r *mc.Run) {
 }
 
 func init() {
-	register("C05", &check{run: c05Run, replay: c05Replay, quick: 150 * time.Second, thor: 900 * time.Second})
+	register("C05", &check{run: c05Run, replay: c05Replay, quick: 240 * time.Second, thor: 900 * time.Second})
 }
